@@ -17,6 +17,7 @@ def run(ck, fb):
     r08g(ck, fb)
     r08h(ck, fb)
     r08j(ck, fb)
+    r08k(ck, fb)
     ck.borrow('rules.c05', {'R05h': 'R08i'}, 'the membership saved when a snapshot is installed must be the one recorded in that snapshot')
 
 
@@ -300,3 +301,35 @@ def r08j(ck, fb):
                'binary, threshold 10, 8 configs on node 1, node 2 joins (last snapshot 6 entries behind): after 30 s node 2 is still NonVoter with '
                'last_log_index 0 and answers 404, the leader spins at about 90 % CPU; four more writes unstick it',
                'the gate depends on a parameter of the caller')
+
+
+def r08k(ck, fb, R='R08k'):
+    ck.rule(R, 'RaftLogManager::split_off(bound) drops every range that ends at or below the bound, open or closed: whether a range (its actor, its '
+               'file, its catalogue entry) goes is decided by comparing the bound with the range\'s end index and by nothing else. The snapshot '
+               'install asks for bound u64::MAX precisely to remove the follower\'s stale OPEN log; a removal that also looks at is_close / record '
+               'counts / the actor keeps that log current, and the first entry after the snapshot is refused for ever')
+    so = ck.body(LM + 'split_off', R)
+    if not so:
+        return
+    from rn.flow import Taint
+    rm = so.calls(r'std::fs::remove_file$|tokio::fs::remove_file$')
+    ck.floor(R, 'file removals in split_off', len(rm), 1)
+    tb = Taint(so, local_src=[l for l in range(1, so.argc + 1) if so.local_name(l) == 'split_off_index'] or [3])
+    for s0 in rm:
+        extra = []
+        cmp_ok = False
+        for a in cfg.guard_atoms(so, s0.bb):
+            if a[0] in ('variant', 'notvariant', 'variantin'):
+                continue          # iterator next() is Some, log_actor is Some ...
+            if a[0] == 'cmp' and a[1] in ('Ge', 'Gt', 'Le', 'Lt'):
+                da, db = cfg.strip_calls(so, a[2]), cfg.strip_calls(so, a[3])
+                txt = cfg.fmt_desc(da) + ' ' + cfg.fmt_desc(db)
+                if ('arg' in txt or 'split_off_index' in txt) and 'get_log_range_end_index' in txt:
+                    cmp_ok = True
+                    continue
+            extra.append(cfg.fmt_atom(a))
+        ck.require(cmp_ok, R, 'split_off:removal-by-end-index', s0.where(), 'the removal of a range is not decided by bound >= end index of the range')
+        ck.require(not extra, R, 'split_off:removal-by-end-index-only', s0.where(),
+                   'a log range at or below the bound is removed only if also %s: the open log of a follower that is caught up by a snapshot '
+                   '(bound u64::MAX, end index u64::MAX, is_close false) survives the install, stays the file appends go to, and the entry after '
+                   'the snapshot is rejected (log write index not equal) - also after a restart' % extra, 'bound >= end index alone')
